@@ -73,7 +73,11 @@ claim('C14',
       '"share a point" and the subtree test is implied by it; (D4) both stores are iterated, '
       'recursive results united, query unchanged, leaves keep all boxes; (D5) recursion only when '
       'every quadrant shrank, over filter lists only (strictly decreasing measure); (D6) no '
-      'in-place mutation of class-level lists. D1-D5 together imply result = brute force.',
+      'in-place mutation of class-level lists. D1-D5 together imply result = brute force. When '
+      'the constructor is not written as four filter comprehensions after an extent loop, D1, D2, '
+      'D4 (leaf) and D5 are read off its behaviour on a list of two symbolic boxes for every '
+      'order type of one box relative to the split point (the second box makes the split point '
+      'an arbitrary number), independently of how the code is written.',
       'Trusted: Python ast, set semantics, vf/interp.py + vf/order.py. The composition argument '
       '(D1-D5 imply the statement) is a pen-and-paper induction on the tree, stated in DESIGN.md.',
       'DESIGN.md section 3, C14')
@@ -240,8 +244,10 @@ claim('C05',
       'kinds (one letter, one letter + arguments, two letters, letter + digit such as T3) x representative lengths x 7 reply classes: the request name is the first / first / '
       'first two / first two characters; success exactly for a non-empty right-name reply without "Err:"; '
       'command returns True/False in step with err; query returns the reply minus name and one '
-      'comma (never indexing past a bare-name reply) or None with err recorded. D5 with a '
-      'SerialException injected at every port call no request method (about 35) lets an '
+      'comma (never indexing past a bare-name reply) or None with err recorded; when a line '
+      'arrives at the first read exactly one read is performed (a non-empty line is never read '
+      'past). D5 with a '
+      'SerialException - and, separately, a plain OSError - injected at every port call no request method (about 35) lets an '
       'exception escape. D6 a primitive that met a fault ends with err set (frozen exemption: '
       'rb/r/bl in command), every newly recorded error is reported by a failure return value, '
       'messages are non-empty. D7 None results of query/var_read/motors_query_enabled never '
